@@ -407,6 +407,43 @@ func c13Subsets(n int) [][]c13Atom {
 	return out
 }
 
+// c13Perms returns the non-identity slot permutations of n HTLCs to enumerate:
+// all of them, or only the reversal.
+func c13Perms(n int, all bool) [][]int {
+	rev := make([]int, n)
+	for i := range rev {
+		rev[i] = n - 1 - i
+	}
+	if !all {
+		return [][]int{rev}
+	}
+	var out [][]int
+	var rec func(cur []int, used []bool)
+	rec = func(cur []int, used []bool) {
+		if len(cur) == n {
+			id := true
+			for i, v := range cur {
+				if v != i {
+					id = false
+				}
+			}
+			if !id {
+				out = append(out, append([]int{}, cur...))
+			}
+			return
+		}
+		for i := 0; i < n; i++ {
+			if !used[i] {
+				used[i] = true
+				rec(append(cur, i), used)
+				used[i] = false
+			}
+		}
+	}
+	rec(nil, make([]bool, n))
+	return out
+}
+
 type c13Planned struct {
 	scn   c13Scn
 	depth int // 1: every single stop; 2: every pair; 3: every triple
@@ -423,6 +460,12 @@ func c13Scenarios(thorough bool) []c13Planned {
 	add := func(s c13Scn, nh int) {
 		s.number()
 		d := 1
+		if !thorough && len(s.Layout) > 0 {
+			// Quick tier: the permuted-slot variants get every single stop only
+			// (what they add shows after one restart); the thorough tier treats
+			// them like any other scenario.
+			nh = 99
+		}
 		if nh <= pairUpTo {
 			d = 2
 		}
@@ -482,8 +525,23 @@ func c13Scenarios(thorough bool) []c13Planned {
 				if k == "breach" && len(set) > maxH-1 {
 					continue
 				}
-				if s, ok := build(k, first, set, false); ok {
-					add(s, len(set))
+				s, ok := build(k, first, set, false)
+				if !ok {
+					continue
+				}
+				add(s, len(set))
+				// The same scenario with the output slots of the non-confirmed
+				// commitments permuted: the reversed order in the quick tier, every
+				// permutation in the thorough tier.
+				if k == "coop" || k == "breach" || len(set) < 2 {
+					continue
+				}
+				for _, perm := range c13Perms(len(set), thorough) {
+					v := s
+					v.HTLCs = append([]c13HTLC{}, s.HTLCs...)
+					v.Layout = perm
+					v.Name += "/slots=" + strings.Trim(strings.ReplaceAll(fmt.Sprint(perm), " ", ""), "[]")
+					add(v, len(set))
 				}
 			}
 		}
@@ -498,6 +556,9 @@ func c13Scenarios(thorough bool) []c13Planned {
 	}
 	// Two HTLCs of the same kind.
 	two := c13Scn{Name: "local/oN+oN'", Close: "local", ToLocal: true, Anchor: true, HTLCs: []c13HTLC{{Exp: 110}, {Exp: 111}}}
+	add(two, 2)
+	two.Name, two.Layout = "local/oN+oN'/slots=10", []int{1, 0}
+	two.HTLCs = append([]c13HTLC{}, two.HTLCs...)
 	add(two, 2)
 	return out
 }
